@@ -84,8 +84,8 @@ impl Mesh {
     /// point and the projection, flipped into the positive half-space of the mesh surface at the
     /// projection point.
     ///
-    /// If the distance is less than a very small floating point epsilon, the direction will be
-    /// taken directly from the mesh surface normal.
+    /// If the distance is less than a very small fraction of the size of the closest face, the
+    /// direction will be taken directly from the mesh surface normal.
     ///
     /// The first point `.a` of the measurement is the reference point, and the second point `.b`
     /// is the test point.
@@ -109,7 +109,12 @@ impl Mesh {
             .shape
             .project_local_point_and_get_location(point, self.is_solid);
         let closest = projection.point;
-        let normal = self.shape.triangle(tri_id).normal().unwrap();
+        let triangle = self.shape.triangle(tri_id);
+        let normal = triangle.normal().unwrap();
+
+        // "On the surface" is judged relative to the size of the face, so that parts which are
+        // themselves only micrometers across are not measured against their face normals
+        let on_surface = 1.0e-9 * triangle.local_aabb().extents().norm();
 
         // In both cases, the measurement point `b` will remain the test point and `a` will be the
         // where the reference point, what will change is the direction of the measurement
@@ -117,7 +122,7 @@ impl Mesh {
         let d = match dist_mode {
             DistMode::ToPoint => {
                 let v = point - closest;
-                if v.norm() < 1e-6 {
+                if v.norm() < on_surface {
                     normal
                 } else if self.side_normal(&closest, tri_id, &location).dot(&v) > 0.0 {
                     UnitVec3::new_normalize(v)
